@@ -5,7 +5,7 @@ File-system model: pyvc/effects.py (ghost, append-only trace of write effects; r
 is the number of effects so far)."""
 from pyvc.dsl import (contract, invariant, inline, ite, is_tuple, is_none, is_int, is_str, is_instance, forall_int,
                       exists_int, uf, old, klass, field, fs_trace, fs_text, fs_readable, fs_writable, fs_islink,
-                      fs_op_ok, fs_op_started)
+                      fs_op_ok, fs_op_started, fs_exists)
 from contracts.kschema import EV, BV, SV, VIS, SEL, W2C, FORCED
 
 M = "esp_kconfiglib.core"
@@ -137,3 +137,30 @@ class C_write_config:
         if fs_islink(f, n0):
             return t[n0] == ("copyfile", f, f + ".old") or t[n0] == ("copyfile_partial", f, f + ".old")
         return t[n0] == ("replace", f, f + ".old")
+
+
+# ------------------------------------------------------------------------------------------------ kconfgen
+MG = "kconfgen.core"
+
+
+@contract(MG, "update_if_changed", params=["source", "destination", "encoding"],
+          param_types={"source": "str", "destination": "str", "encoding": "str"}, modifies=["$fs"], raises=["OSError"])
+class C_update_if_changed:
+    """kconfgen writes every output to a temporary file first and copies it over the destination only when the
+    content differs (C13: an unchanged regeneration leaves the destination untouched)"""
+
+    def ensures_unchanged_untouched(source, destination, encoding, result):
+        n0 = old(len(fs_trace()))
+        same = (fs_exists(destination, n0) and fs_readable(destination, n0) and fs_readable(source, n0)
+                and fs_text(destination, n0) == fs_text(source, n0))
+        return (not same) or len(fs_trace()) == n0
+
+    def ensures_changed_written(source, destination, encoding, result):
+        t = fs_trace()
+        n0 = old(len(fs_trace()))
+        same = fs_exists(destination, n0) and fs_text(destination, n0) == fs_text(source, n0)
+        return same or (len(t) == n0 + 2 and t[n0] == ("open_w", destination)
+                        and t[n0 + 1] == ("write", destination, fs_text(source, n0)))
+
+    def exsures_OSError(source, destination, encoding):
+        return len(fs_trace()) == old(len(fs_trace()))
